@@ -417,6 +417,34 @@ PROPS["C06"] = dict(
                "correspondence; serde's visitors assumed. One open finding under arbitrary_precision (-0 via Value).",
 )
 
+PROPS["C20"] = dict(
+    lean_targets=["SJ.Props.C20", "SJ.Audit.C20"],
+    configs=dict(quick=["ap"], thorough=["ap", "frap"]),
+    gen_keys=["error.", "de."],
+    rule="with arbitrary_precision: the C06 literal families through typed targets and accessors; every string of length <= 5 "
+         "(thorough 6) over the number alphabet 0 1 9 - + . e E as candidate for Number::from_str (exhaustive near-misses of the "
+         "grammar); a fixed set of spellings (-0, trailing zeros, exponent spellings, huge exponents), 2000 (thorough 20000) random "
+         "number texts and 30 (thorough 300) literals with 100-1000 digit mantissas/exponents: as_str, Display, to_string of the "
+         "Number and of the Value, pretty, and nested in a document read through a chunked reader; documents of arrays of such "
+         "literals with whitespace re-serialised; plus the whole parser input space of C01 (values compared as literal text).",
+    trusted_base=MACHINE_TB,
+    assumptions=["as_f64 of an arbitrary-precision Number is str::parse::<f64> (std): 'nearest finite f64 or None' is std's guarantee and is not re-checked here",
+                 "Number::from_str = number entry point + end-of-input check, modelled as 'parser returns a number and the input has no whitespace'"],
+    partial=["c20_typed_same (typed deserialisation independent of the feature) is C06's c06_typed, which does not mention the feature; "
+             "the accessor clause is checked by correspondence against the literal's exact value"],
+    technique="Lean 4 theorems derived from parser soundness/completeness: under arbitrary_precision every RFC 8259 number literal parses "
+              "to the number whose text is the literal byte for byte; only number literals yield numbers; exhaustive number-alphabet "
+              "differential run of Number::from_str and verbatim re-serialisation",
+    level_text="Machine-checked: c20_verbatim (for every number literal p, any length and spelling, parsing p.bytes under "
+               "arbitrary_precision gives Num.lit p.bytes), c20_nested (the same for a literal anywhere in a document, via the "
+               "denotation theorem c02_denotes), c20_from_str_sound (a whitespace-free input that parses to a number is exactly an RFC "
+               "8259 number and is stored unchanged). The crate's as_str/Display/to_string/pretty/nested outputs are compared with the "
+               "literal on random, boundary and 1000-digit literals; Number::from_str is run on every string of length <= 5-6 over the "
+               "number alphabet against the grammar.",
+    level_note="Trusted: Lean kernel + 3 standard axioms; extract.py; harness/driver; machine model. A genuine defect (-0 stored as 0) was "
+               "repaired in /repo (fix: d7b526b).",
+)
+
 # properties not claimed yet (kept current as checks are added)
 NOT_APPLICABLE = [
     dict(property_id=f"C{i:02d}", reason="check under construction in this build phase; not yet claimed (see DESIGN.md §11 build order)")
